@@ -305,6 +305,65 @@ class Gen:
         a = rng.choice(STR_ARRS)[0]
         return f"{let}{self.arr_ref(a)} = {self.bounded_str(1)}"
 
+    def array_block(self):
+        """element-to-element traffic inside ONE array (numeric or string, DIMmed or implicitly dimensioned, one or more
+        dimensions): distinct fill values, assignments whose right-hand side reads other elements of the same array
+        (the element read last differs from the target most of the time), then all touched elements are PUNCHed.
+        `findvar` re-points the per-variable cell pointer at every reference: the target of LET / READ / FOR must
+        survive that."""
+        rng = self.rng
+        is_str = rng.random() < 0.5
+        name = rng.choice(STR_ARRS if is_str else NUM_ARRS)[0]
+        self.note("array-block:" + ("string" if is_str else "numeric"))
+        self.arr_ref(name)                                   # registers the bounds (DIM or implicit)
+        bounds = self.dims[name]
+
+        def cell():
+            return name + "(" + ", ".join(str(rng.randint(0, b)) for b in bounds) + ")"
+        cells = []
+        while len(cells) < 4:
+            c = cell()
+            if c not in cells:
+                cells.append(c)
+            elif all(b == 0 for b in bounds) or len(cells) >= 1 and rng.random() < 0.05:
+                break
+        if len(cells) < 2:
+            return [self.simple()]
+        lines = []
+        fill = []
+        for i, c in enumerate(cells):
+            fill.append(f"{c} = " + (f'"{chr(97 + i)}{rng.randint(0, 99)}"' if is_str else f"{(i + 1) * rng.choice([1, 2.5, -3, 10])}"))
+        lines.append(" : ".join(fill))
+        for _ in range(rng.randint(1, 4)):
+            tgt = rng.choice(cells)
+            others = [c for c in cells if c != tgt]
+            k = rng.choice([1, 2, 2, 3])
+            reads = [rng.choice(cells) for _ in range(k - 1)] + [rng.choice(others) if rng.random() < 0.8 else tgt]
+            if is_str:
+                parts = reads[:]
+                if rng.random() < 0.4:
+                    parts.insert(rng.randrange(len(parts)), str_literal(rng) if rng.random() < 0.5 else '"-"')
+                rhs = " + ".join(parts)
+                if len(parts) > 2 or rng.random() < 0.3:
+                    rhs = f"MID$({rhs}, 1, 60)"
+            else:
+                rhs = reads[0]
+                for rd in reads[1:]:
+                    rhs += rng.choice([" + ", " - ", " * 0.5 + ", " / 4 + "]) + rd
+                if rng.random() < 0.3:
+                    rhs = rng.choice(["2 * ", "1 + ", "-"]) + "(" + rhs + ")"
+            let = kw(rng, "LET") + " " if rng.random() < 0.15 else ""
+            self.note("array-elem-assign")
+            lines.append(f"{let}{tgt} = {rhs}")
+        if not is_str and rng.random() < 0.3:                 # loop variable = array element, body reads a sibling element
+            lv, sib = cells[0], cells[1]
+            self.note("FOR-array-element")
+            nxt = kw(rng, "NEXT") + (" " + lv if rng.random() < 0.6 else "")
+            body = f"{kw(rng, 'PUNCH')} {sib}, {lv}" if rng.random() < 0.7 else f"{kw(rng, 'PUNCH')} {lv}, {sib}"
+            lines.append(f"{kw(rng, 'FOR')} {lv} = {rng.choice(['1', '0', sib + ' * 0'])} {kw(rng, 'TO')} {rng.choice(['2', '3', '1.5'])} : {body} : {nxt}")
+        lines.append(kw(rng, "PUNCH") + " " + ", ".join(cells))
+        return lines
+
     def output(self):
         rng = self.rng
         r = rng.random()
@@ -384,9 +443,11 @@ def gen_program(rng, size=20, rich=True, max_depth=3):
     data_items = []
     for _ in range(n_data):
         if rng.random() < 0.6:
-            data_items.append(("n", num_literal(rng) if rng.random() < 0.7 else f"{rng.randint(1, 9)} * {rng.randint(1, 9)} + 0.5"))
+            c = rng.random()
+            data_items.append(("n", num_literal(rng) if c < 0.6 else f"{rng.randint(1, 9)} * {rng.randint(1, 9)} + 0.5" if c < 0.8
+                               else f"{g.arr_ref('arr')} + {g.arr_ref('arr')} * 2"))      # evaluated when it is READ
         else:
-            data_items.append(("s", str_literal(rng)))
+            data_items.append(("s", str_literal(rng) if rng.random() < 0.8 else f"{g.arr_ref('w$')} + {g.arr_ref('w$')}"))
     data_pos = [0]
     per_chunk = rng.choice([1, 2, 3, 6])
     chunk_labels = [new_label() for _ in range(0, len(data_items), per_chunk)]
@@ -403,6 +464,10 @@ def gen_program(rng, size=20, rich=True, max_depth=3):
                 out.append(" : ".join(g.simple() for _ in range(k)) if rng.random() < 0.9
                            else ":".join(g.simple() for _ in range(k)))
                 n -= 1
+            elif r < 0.56 and n >= 3:                         # traffic between the elements of one array
+                ab = g.array_block()
+                out += ab
+                n -= len(ab)
             elif r < 0.66:                                    # FOR loop
                 v = next((x for x in LOOP_VARS if x not in g.loop_stack), None) if len(g.loop_stack) < 4 else None
                 if v is None:
@@ -492,9 +557,9 @@ def gen_program(rng, size=20, rich=True, max_depth=3):
                 targets = []
                 for kind, _ in data_items[data_pos[0]:data_pos[0] + k]:
                     if kind == "n":
-                        targets.append(rng.choice(g.num_vars) if rng.random() < 0.8 else g.arr_ref("arr"))
+                        targets.append(rng.choice(g.num_vars) if rng.random() < 0.6 else g.arr_ref("arr"))
                     else:
-                        targets.append(rng.choice(g.str_vars))
+                        targets.append(rng.choice(g.str_vars) if rng.random() < 0.6 else g.arr_ref("w$"))
                 data_pos[0] += k
                 g.note("READ")
                 out.append(kw(rng, "READ") + " " + ", ".join(targets))
